@@ -192,7 +192,7 @@ R.contract(f'{BC}.load_result_with_meta', self_type='Obj[BaseCache]', params={'s
     raises={'Exception': [C("FILES_SAME() and DIRS_SAME_EXCEPT(task.cache_key)", 'a failed load changes no file', serves=('C08',))]},
     frame=FSFRAME + ['Handle.pending'])
 R.contract(f'{BC}.is_cached', self_type='Obj[BaseCache]', params={'storage': 'Storage', 'task': 'Inst'}, returns='Bool',
-    ensures=[C("result == (task.cache_key in DIRS)", 'cached iff the key directory exists', serves=('C06', 'C08'))], raises={'StorageError': []}, frame=[])
+    ensures=[C("result == (task.cache_key in DIRS)", 'cached iff the key directory exists (no memo, no negative cache: the answer is the storage\'s current state)', serves=('C06', 'C08', 'C03'))], raises={'StorageError': []}, frame=[])
 R.contract(f'{BC}.delete', self_type='Obj[BaseCache]', params={'storage': 'Storage', 'task': 'Inst'},
     ensures=[C("DIRS == sdel(old(DIRS), task.cache_key)", 'exactly the task\'s own entry disappears', serves=('C08',)),
              C("FILES_SAME_EXCEPT(task.cache_key)", 'no other entry\'s file changes', serves=('C08',))],
@@ -266,7 +266,7 @@ rolt.cand_locals = ('task',)
 LABK = 'labtech.lab:Lab'
 TCK = 'labtech.lab:TaskCoordinator'
 R.contract(f'{LABK}.is_cached', self_type='Obj[Lab]', params={'task': 'Inst'}, returns='Bool', pure=True,
-    ensures=[C("result == (CACHEABLE(task) and (task.cache_key in DIRS))", 'is_cached reports exactly the presence of the task\'s own entry', serves=('C06', 'C08')),
+    ensures=[C("result == (CACHEABLE(task) and (task.cache_key in DIRS))", 'is_cached reports exactly the presence of the task\'s own entry', serves=('C06', 'C08', 'C03')),
              C("(DIRS == old(DIRS)) and FILES_SAME()", 'a query changes nothing', serves=('C08',))],
     raises={'StorageError': []}, frame=[])
 R.contract(f'{LABK}.uncache_tasks', self_type='Obj[Lab]', params={'tasks': 'List[Inst]'},
